@@ -9,6 +9,7 @@ import PraatModel.Props.C04
 run feeds it every text that praatio's emitters write (keyword-bearing labels included) and compares the decoded
 content with the in-memory textgrid.  Proved here, for ALL labels: the spec tokenizer turns a written (quote-doubled)
 text back into the label; written quotes come in pairs; and (from C04) blank filling yields a partition of the span.
+The whole-file statement (decode ∘ emit = the in-memory content, both layouts, all textgrids) is in Props/C02Full.lean.
 -/
 namespace C02
 
